@@ -320,12 +320,14 @@ func runC13(ctx *Ctx) error {
 			switch {
 			case err == nil:
 				items = append(items, agwShow(f))
-			case strings.Contains(err.Error(), "exceeds limit"):
-				end = "toolong"
 			case cr.n == before && err == io.EOF:
 				end = "eof"
-			default:
+			case err == io.EOF || err == io.ErrUnexpectedEOF:
 				end = "short"
+			default:
+				// any other error after a complete header: the frame was refused (no reliance on
+				// the wording of the error)
+				end = "toolong"
 			}
 		}
 		add("frame-read", "agwreadall "+tx(stream), strings.TrimSpace(strings.Join(items, " ")+" end="+end), hexs(stream))
